@@ -168,14 +168,17 @@ PLANS = {
     ),
     'C17': dict(
         module='RucteProps.C17',
-        theorems=['Ructe.C17.announced', 'Ructe.C17.pinned_add_files_as_counterexample'],
+        extra_modules=['RucteProps.C17Rerun'],
+        theorems=['Ructe.C17.announced', 'Ructe.C17.pinned_add_files_as_counterexample',
+                  'Ructe.C17Rerun.rerun_sound', 'Ructe.C17Rerun.no_rerun_nothing_stale', 'Ructe.C17Rerun.change_triggers_rerun',
+                  'Ructe.C17Rerun.step_announces_root', 'Ructe.C17Rerun.resolve_congr'],
         runs=[dict(suite='script', mix='statics,tree', n=dict(quick=150, thorough=1500), projection='script+stdout', tags=['C17']),
               # stylesheets with partials / imports in other directories (rsass is opaque to the model: oracle only)
               dict(suite='script', features=['sass'], mix='sassimports', n=dict(quick=40, thorough=400), projection='script+', tags=['C17'])],
         correspondence='the lines printed to stdout by a whole build-script run (public API, child process) vs Ructe.build, given the same input tree and read_dir order',
         rule='random build scripts over compile_templates / add_file / add_files / add_file_as / add_files_as (nested sub-directories) / add_file_data on random trees (tmpfs and ext4, relative and absolute paths); oracle: every directory listed and every file read or embedded is covered by a cargo:rerun-if-changed line for itself or an ancestor; non-trivial = distinct run outputs',
         assumptions=['cargo re-runs a build script when a listed path, or anything under a listed directory, changes (cargo\'s documented rule, modelled as the `covered` predicate)', 'add_sass_file reads through rsass\' CargoContext, which prints its own lines: opaque to the model; the oracle on the implementation covers it (stylesheets importing partials from the same, a sub-, a sibling and a distant directory must have every loaded file announced)'],
-        level_text='Theorem announced (every path the model reads is covered by a printed line) over Ructe.build; tie on the printed lines; oracle on the implementation with the harness\' own knowledge of the inputs.',
+        level_text='Theorem announced (every path the model reads is covered by a printed line) over Ructe.build. The second half of the statement ("so that adding, editing or deleting an input makes cargo run the build script again") is proved over an explicit input tree (RucteModel/InFS.lean: what the operating system shows at a path; calls as written in build.rs): rerun_sound / no_rerun_nothing_stale - if the trees before and after ANY edit agree at every path the first run announced (cargo sees no reason to run the script again) then the script resolves to exactly the same calls, so nothing is stale; change_triggers_rerun - if a run on the edited tree would produce anything else (other bytes, other lines, a failure) then some announced path changed. cargo\'s rule itself (re-run iff the file at an announced path, or anything under an announced directory, changed) is the trusted part. Tie on the printed lines; oracle on the implementation with the harness\' own knowledge of the inputs.',
         level_note='Trusted: Lean kernel; hand-written model of lib.rs / staticfiles.rs on an abstract file system; cargo\'s rerun rule.',
         design_ref='DESIGN.md §6 C17',
     ),
